@@ -1,6 +1,6 @@
 (* C20 — a terminal abort always surfaces as an error identifying its result code.  Statements only. *)
 From Zvt Require Import Base Length Cp437 Encoding Codec Lookup Client ClientProps SpecCheck.
-From Zvt Require Import Sequence SeqLookup ClientLog.
+From Zvt Require Import Sequence SeqLookup EnumProps ClientLog.
 From Zvt.gen Require Tables.
 From Zvt.spec Require Spec.
 Open Scope N_scope.
@@ -80,6 +80,20 @@ Theorem C20_call_on_buffered_replies : forall (A B : Type) cfg (h : A -> N -> va
   fst (consume fuel cfg (start_retry q T) w acc h fin) = run_handler h fin acc its.
 Proof. exact @call_on_buffered_replies. Qed.
 
+(* ... and from what the terminal SERIALISED: if the buffer holds the acknowledgement followed by the serialisations (C01: values of
+   the class `canon`) of the replies x1 .. xn of a looping exchange, none final but the last, the call returns the handler folded
+   over exactly (variant, content) of x1 .. xn — codec, framing, dispatch, sequence, retry stream and consumer loop composed *)
+Theorem C20_call_on_serialised_replies : forall (A B : Type) cfg (h : A -> N -> value -> option (cres B) * A) fin q T id xs rest fuel w acc final,
+  q_mode q = Loop final ->
+  w_cur w = Some id -> valid_id w id -> settled (get_conn w id) ->
+  k_buf (get_conn w id) = [128; 0; 0] ++ concat (map x_bytes xs) ++ rest ->
+  nodup_cf (map v_cf (q_replies q)) = true -> Forall (reply_ok (q_replies q)) xs -> xs <> [] ->
+  (forall pre x post, xs = pre ++ x :: post -> final (fst (x_item x)) = match post with [] => true | _ => false end) ->
+  (length xs < fuel)%nat ->
+  fst (consume fuel cfg (start_retry q T) w acc h fin) = run_handler h fin acc (map x_item xs).
+Proof. exact @call_on_serialised_replies. Qed.
+
+Print Assumptions C20_call_on_serialised_replies.
 Print Assumptions C20_call_on_buffered_replies.
 Print Assumptions C20_call_result_is_fold_over_received_items.
 Print Assumptions C20_abort_at_any_position.
